@@ -212,6 +212,7 @@ def gen_dc(rng, edge=False):
             for i in range(d):
                 for j in range(i):
                     H[i][j] = dec(rng, -1.5, 1.5, 2)
+            common.sparse_tilt(rng, H)
         pos = [[dec(rng, -1, 8, 2) for _ in range(d)] for _ in range(N)]
         nb = gen_nb(rng, N, edge)
         fk = None
